@@ -200,7 +200,9 @@ handlers!(hd6, hd6_some, hd6_ok, A, B, C, D, E, F);
 /// Runs one case: result (or PANIC) followed by the log.
 pub fn run_case(id: &str, f: impl FnOnce() -> String + std::panic::UnwindSafe) {
     take_log();
+    RELEASED.store(false, std::sync::atomic::Ordering::SeqCst);
     let r = std::panic::catch_unwind(f);
+    RELEASED.store(true, std::sync::atomic::Ordering::SeqCst);
     let res = match r {
         Ok(s) => s,
         Err(_) => {
@@ -458,4 +460,29 @@ pub fn run_case_unnamed(id: &'static str, f: impl FnOnce() -> String + std::pani
     };
     let lg = take_log();
     println!("CASE\t{}\t{}\t{}", id, res, lg.join(" "));
+}
+
+pub fn boom_ins<T: Show>(id: i64) -> impl Fn(&T) + Send + Sync + Copy + 'static {
+    log(format!("E{}", id));
+    move |x| {
+        log(format!("C{}({})", id, x.show()));
+        panic!("boom")
+    }
+}
+// ---- a callback that waits until the harness has seen the macro expression return or panic (C18: the caller is never left blocked) ----
+pub static RELEASED: std::sync::atomic::AtomicBool = std::sync::atomic::AtomicBool::new(false);
+pub fn wait_rel<T: Show>(id: i64) -> impl Fn(T) -> T + Send + Sync + Copy + 'static {
+    log(format!("E{}", id));
+    move |x| {
+        log(format!("C{}({})", id, x.show()));
+        let t0 = std::time::Instant::now();
+        while !RELEASED.load(std::sync::atomic::Ordering::SeqCst) {
+            if t0.elapsed() > std::time::Duration::from_millis(1500) {
+                log(format!("TIMEOUT{}", id));
+                break;
+            }
+            std::thread::sleep(std::time::Duration::from_micros(200));
+        }
+        x
+    }
 }
